@@ -302,5 +302,185 @@ func TestVerifC01(t *testing.T) {
 			}
 		})
 	}
-	r.Set("bounds", fmt.Sprintf("fresh: N<=%d w<=%d; zero-weight: N<=%d; change histories: N<=%d w<=%d, change after every k<=W picks", maxN, maxW, r.Pick(3, 4), maxNB, maxWB))
+	// Part C: reloads that change NOTHING the property's antecedent talks about. BalanceRR.Update
+	// is called with the same backends and the same configured weights (identical list, or the
+	// same entries in another order) after k picks, for every phase k in 0..W of every weight
+	// vector of the Part A alphabet (plus the zero-weight alphabet of Part A2). "Available
+	// backends and their configured weights stay unchanged" holds over the whole history, so
+	// every window of W picks -- before, across and after the reload -- must be exact; for the
+	// identical list the ordered weight list is the same too, so the sequence must be the
+	// no-reload sequence. Signatures are separate from change:update-weight:* (weights really
+	// change there), so a break of the no-op reload path cannot hide behind that finding.
+	noop := func(ws []int) {
+		n := len(ws)
+		W, hasPos := 0, 0
+		for _, w := range ws {
+			W += w
+			if w > 0 {
+				hasPos++
+			}
+		}
+		if W == 0 {
+			return
+		}
+		post := 3 * W
+		// reference: the same vector, never reloaded
+		ref := make([]int, 0, W+post)
+		{
+			brr := c01new(ws)
+			for j := 0; j < W+post; j++ {
+				ref = append(ref, c01pickFast(brr))
+			}
+		}
+		// list orders handed to Update: identical, reversed, rotated left by one
+		orders := []string{"same"}
+		if n >= 2 {
+			orders = append(orders, "rev")
+		}
+		if n >= 3 {
+			orders = append(orders, "rot")
+		}
+		for k := 0; k <= W; k++ {
+			for _, ord := range orders {
+				id := vk.Key("noop", ord, ws, k)
+				if !r.Case(id) {
+					continue
+				}
+				brr := c01new(ws)
+				seq := make([]int, 0, k+post)
+				for j := 0; j < k; j++ {
+					seq = append(seq, c01pickFast(brr))
+				}
+				above := false // some backend holds more credit than its weight at the reload
+				before := make([]int, 0, n)
+				for _, b := range brr.backends {
+					if b.current > b.weight {
+						above = true
+					}
+					before = append(before, b.current)
+				}
+				brr.Update(c01permute(c01conf(ws), ord))
+				after := make([]int, 0, n)
+				for _, b := range brr.backends {
+					after = append(after, b.current)
+				}
+				for j := 0; j < post; j++ {
+					seq = append(seq, c01pickFast(brr))
+					r.Transitions(1)
+				}
+				sigBase := "change:noop-reload"
+				if ord != "same" {
+					sigBase = "change:noop-reload-reordered"
+				}
+				okW, why := c01windows(seq, ws)
+				if !okW {
+					r.Violation(sigBase+":window", id, fmt.Sprintf("reload of the same backends/weights (order %s) after %d picks; credit before %v after %v; %s", ord, k, before, after, why))
+				}
+				same := true
+				for j := range seq {
+					if seq[j] != ref[j] {
+						same = false
+						if ord == "same" && okW {
+							r.Violation("change:noop-reload:sequence-differs", id, fmt.Sprintf("identical conf reloaded after %d picks: pick %d is %d, without reload %d (seq %v, no-reload %v)", k, j, seq[j], ref[j], seq, ref[:len(seq)]))
+						}
+						break
+					}
+				}
+				r.Traces(1)
+				r.Outcome(fmt.Sprintf("noop-%s:credit-above-weight=%v:same-seq=%v", ord, above, same))
+				if hasPos > 1 && k > 0 && k < W {
+					r.Nontrivial(id)
+				}
+			}
+		}
+		// the identical conf reloaded before every single pick
+		id := vk.Key("noop-every", ws)
+		if r.Case(id) {
+			brr := c01new(ws)
+			seq := make([]int, 0, post)
+			for j := 0; j < post; j++ {
+				brr.Update(c01conf(ws))
+				seq = append(seq, c01pickFast(brr))
+				r.Transitions(1)
+			}
+			okW, why := c01windows(seq, ws)
+			if !okW {
+				r.Violation("change:noop-reload:window", id, "identical conf reloaded before every pick; "+why)
+			}
+			for j := range seq {
+				if seq[j] != ref[j] {
+					if okW {
+						r.Violation("change:noop-reload:sequence-differs", id, fmt.Sprintf("identical conf reloaded before every pick: pick %d is %d, without reload %d (seq %v)", j, seq[j], ref[j], seq))
+					}
+					break
+				}
+			}
+			r.Traces(1)
+			if hasPos > 1 {
+				r.Nontrivial(id)
+			}
+		}
+	}
+	for n := 1; n <= maxN; n++ {
+		c01enumWeights(n, maxW, 1, func(ws []int) {
+			idx++
+			if !r.Mine(idx) {
+				return
+			}
+			noop(ws)
+		})
+	}
+	for n := 2; n <= r.Pick(3, 4); n++ {
+		c01enumWeights(n, r.Pick(3, 4), 0, func(ws []int) {
+			idx++
+			if !r.Mine(idx) {
+				return
+			}
+			hasZero := false
+			for _, w := range ws {
+				if w == 0 {
+					hasZero = true
+				}
+			}
+			if hasZero {
+				noop(ws)
+			}
+		})
+	}
+	r.Set("bounds", fmt.Sprintf("fresh: N<=%d w<=%d; zero-weight: N<=%d; change histories: N<=%d w<=%d, change after every k<=W picks; no-op reload (identical / reversed / rotated list, and before every pick): N<=%d w<=%d plus zero-weight N<=%d, after every k<=W picks", maxN, maxW, r.Pick(3, 4), maxNB, maxWB, maxN, maxW, r.Pick(3, 4)))
+}
+
+// c01permute returns conf in the named order ("same", "rev" = reversed, "rot" = rotated left by one).
+func c01permute(conf cluster_table_conf.SubClusterBackend, ord string) cluster_table_conf.SubClusterBackend {
+	n := len(conf)
+	out := make(cluster_table_conf.SubClusterBackend, 0, n)
+	switch ord {
+	case "rev":
+		for i := n - 1; i >= 0; i-- {
+			out = append(out, conf[i])
+		}
+	case "rot":
+		for i := 0; i < n; i++ {
+			out = append(out, conf[(i+1)%n])
+		}
+	default:
+		out = append(out, conf...)
+	}
+	return out
+}
+
+// c01pickFast is c01pick without fmt scanning (names are "b<decimal>").
+func c01pickFast(brr *BalanceRR) int {
+	b, err := brr.Balance(WrrSmooth, nil)
+	if err != nil || b == nil || len(b.Name) < 2 || b.Name[0] != 'b' {
+		return -1
+	}
+	i := 0
+	for _, c := range b.Name[1:] {
+		if c < '0' || c > '9' {
+			return -1
+		}
+		i = i*10 + int(c-'0')
+	}
+	return i
 }
